@@ -123,8 +123,8 @@ def olc_side(rule, what='the olc_db instantiation'):
     return R(run)
 
 
-SEQ_POINT = [R(point.noeff1), R(point.keyeq1), R(find.find1), R(find.ord1), R(slot.slot1), R(point.pair1), R(point.copy1), R(lambda cfg: point.desc1(cfg, which='point')), R(prefix.pfx1), R(prefix.pfx2)]
-SEQ_SCAN = [R(seq.cmp3), R(enc.cmp_shape), R(enum1.enum1), R(iterrules.iter2), R(lambda cfg: point.desc1(cfg, which='seek')), R(iterrules.vis1)]
+SEQ_POINT = [R(point.noeff1), R(point.keyeq1), R(find.find1), R(find.ord1), R(slot.slot1), R(point.pair1), R(point.copy1), R(lambda cfg: point.desc1(cfg, which='point')), R(prefix.pfx1), R(prefix.pfx2), R(lambda cfg: point.type1(cfg, which='point'))]
+SEQ_SCAN = [R(seq.cmp3), R(enc.cmp_shape), R(enum1.enum1), R(iterrules.iter2), R(lambda cfg: point.desc1(cfg, which='seek')), R(iterrules.vis1), R(lambda cfg: point.type1(cfg, which='scan'))]
 
 
 def _olc_point_roots(m):
@@ -143,7 +143,7 @@ SCAN = 'olc_db iterator and scan functions and everything they call'
 PROPERTIES['C01'] = {
     'level': 'other',
     'configs': two,
-    'rules': [R(point.noeff1), R(point.keyeq1), R(point.leaf1), R(point.leaf2), R(point.leaf3), R(point.root1), R(point.split1), R(point.pair1), R(point.copy1), R(point.desc1), R(find.find1), R(find.ord1), R(slot.slot1), R(prefix.pfx1), R(prefix.pfx2),
+    'rules': [R(point.noeff1), R(point.keyeq1), R(point.leaf1), R(point.leaf2), R(point.leaf3), R(point.root1), R(point.split1), R(point.pair1), R(point.copy1), R(point.desc1), R(find.find1), R(find.ord1), R(slot.slot1), R(prefix.pfx1), R(prefix.pfx2), R(lambda cfg: point.type1(cfg, which='point')),
               advisory(R(lambda cfg: iterrules.sib1_point(cfg, accounting=False))), R(lambda cfg: olcrules.lock6(cfg, kinds=('leaf',))), R(olcrules.lock6b)],
     'technique': 'static analysis: path-sensitive effect flow with callee summaries (result/effect correlation), control-dependence rules (full-key comparison guards), writer/reader expression agreement, abstract interpretation of the node search and key-prefix arithmetic in byte-vector / lane-wise three-valued domains with exhaustively enumerated lengths and counts, sibling differencing db vs olc_db',
     'explanation': 'The local generators of "point operations behave as a map", decided on the clang-instantiated code of all three index classes and both key kinds; the behaviour over all histories is NOT decided (see does_not_decide). '
@@ -154,7 +154,7 @@ PROPERTIES['C01'] = {
                    'FIND-1 find_child of each node class returns exactly the child stored for the key byte: I4 / I16 by lane-wise three-valued evaluation of the SSE search with child count and match position enumerated and stale slots free, I48 / I256 by term comparison; SLOT-1 I48 files a new child in the first null slot of its pointer array (lane-wise evaluation of the SSE4.2 / AVX2 / scalar search, first null slot enumerated 0..47); ORD-1 the dense classes insert at the rank of the new key byte (sortedness preserved); PAIR-1 every function of the dense classes writes the key array and the child array in lock-step (same target and source slots), so slot i of one always describes slot i of the other. '
                    'DESC-1 the descent of get / insert / remove / seek compares each node prefix with the shifted working copy of the key, shifts it by the prefix length, selects the child by its first byte and shifts by one, in this order, the tracked depth moving in step; COPY-1 the grow / shrink initialisers walk the slot arrays of their source node from slot 0 to the array size; '
                    'SPLIT-1 node splits dispatch on the bytes at the split position (leaf split: k1[depth+L] / shifted_k2[L]; prefix split: prefix[len] read before the cut by len+1, key[depth+len]); CAP-1 / CAP-2 the interval obligations "longest common prefix of two distinct keys <= key_prefix_capacity" at the leaf split and "merged prefix <= capacity" at the collapse hold for 64-bit keys and FAIL for byte-string keys - two genuine defects of the pinned tree, listed in known_findings.json and printed as KNOWN-FINDING (replays triage/d1_long_prefix.cpp, triage/d1b_collapse_overflow.cpp). '
-                   'PFX-1 key_prefix::cut / prepend are the specified byte permutations for every combination of lengths and every content of the stale bytes; PFX-2 shared_len is min(first differing byte, clamp). '
+                   'TYPE-1 a tagged node pointer is reinterpreted as a leaf only where its type tag was tested to be LEAF and as an inner node only where it was tested not to be (control dependence on the tag test, through locals and out-parameters holding the tag). PFX-1 key_prefix::cut / prepend are the specified byte permutations for every combination of lengths and every content of the stale bytes; PFX-2 shared_len is min(first differing byte, clamp). '
                    'SIB-1p (ADVISORY only - differencing two sibling implementations fires on a behaviour-preserving rewrite of one of them, so its reports go into the evidence notes and never into the verdict; the absolute rules above decide) db and olc_db take the same algorithmic decisions (child lookup, prefix comparison, key shifts, leaf match, node creation by class, helper calls; statistics events projected away - they are C10) on every path of get / insert / remove and of the add / remove helpers of every node class.',
     'decides': 'result/effect correlation; full-key-comparison guards; leaf layout agreement and immutability; per-node lookup, insert position and slot pairing; split dispatch bytes; key-prefix arithmetic; db/olc_db algorithm agreement',
     'does_not_decide': 'the map behaviour as a theorem over all operation histories and key sets (that needs an inductive tree invariant - functional verification, outside static analysis); the iterator-style copy loops of the I4-from-I16 shrink beyond PAIR-1',
@@ -162,14 +162,14 @@ PROPERTIES['C01'] = {
 PROPERTIES['C02'] = {
     'level': 'other',
     'configs': two,
-    'rules': [R(seq.cmp1), R(enc.cmp_shape), R(seq.cmp3), R(seq.iter1), R(enum1.enum1), R(iterrules.iter2), R(iterrules.iter3), R(iterrules.iter4), R(iterrules.iter5), R(lambda cfg: point.desc1(cfg, which='seek')), R(iterrules.vis1), advisory(R(iterrules.sib1))],
+    'rules': [R(seq.cmp1), R(enc.cmp_shape), R(seq.cmp3), R(seq.iter1), R(enum1.enum1), R(iterrules.iter2), R(iterrules.iter3), R(iterrules.iter4), R(iterrules.iter5), R(lambda cfg: point.desc1(cfg, which='seek')), R(iterrules.vis1), R(lambda cfg: point.type1(cfg, which='scan')), advisory(R(iterrules.sib1))],
     'technique': 'static analysis: forward dataflow over event-CFGs (comparator operands, sibling-step consistency), scan-descriptor extraction per node-class enumeration method compared with a semantics table, must-pass-through rule for the fall-off branch of seek, path-class differencing of the db and olc_db iterators',
     'explanation': 'Static necessary conditions of "scans visit exactly the interval, in order", decided on the clang-instantiated code of db, mutex_db and olc_db for both key kinds: '
                    'CMP-1 every byte comparator is applied to key bytes, never to the object representation of a pointer-carrying object; CMP-2 detail::compare is memcmp over the common length, then shorter-first on a tie (evaluated for all sign / length cases); CMP-3 every three-way key comparison (art_key / leaf / iterator cmp) takes its result from the byte-wise comparator or another cmp, never from relational operators on the byte-swapped key word; '
                    'ITER-1 when an iterator function computes a sibling with next/prior/gte_key_byte/lte_key_byte and the answer holds a value, the child it descends into is the one the answer names; '
                    'ENUM-1 each of the 96 per-node enumeration methods (begin/last/next/prior/gte_key_byte/lte_key_byte x 4 node classes x instantiations) is summarised by a scan descriptor (start, direction, bound, predicate, returned slot) and compared with the ART semantics table; '
                    'ITER-2 the scan drivers position with first / seek(fwd) resp. last / seek(rev), step with next resp. prior, stop at cmp(to) < 0 resp. > 0 (from inclusive, to exclusive), call the visitor once per entry and halt when it asks; '
-                   'ITER-3 when seek falls off an inner node (no child at/after resp. at/before the key byte) the first stack operation is the sibling step on the parent entry, never a pop; ITER-4 direction table: forward functions use forward primitives only and vice versa, and in seek every primitive sits under the direction flag and comparison sign the table demands (an opposite-direction descent is followed by a step in the seek direction); ITER-5 net stack effect of the step functions (replace the parent entry before a descent, remove exactly one entry otherwise); DESC-1 (seek) the descent of seek consumes the key consistently; VIS-1 the visitor is shown the key / value of the leaf on top of the iterator stack; SIB-1 (ADVISORY only, evidence notes, never the verdict) the db and olc_db iterators make the same algorithmic decisions once lock events are projected away.',
+                   'ITER-3 when seek falls off an inner node (no child at/after resp. at/before the key byte) the first stack operation is the sibling step on the parent entry, never a pop; ITER-4 direction table: forward functions use forward primitives only and vice versa, and in seek every primitive sits under the direction flag and comparison sign the table demands (an opposite-direction descent is followed by a step in the seek direction); ITER-5 net stack effect of the step functions (replace the parent entry before a descent, remove exactly one entry otherwise); DESC-1 (seek) the descent of seek consumes the key consistently; VIS-1 the visitor is shown the key / value of the leaf on top of the iterator stack; TYPE-1 the iterator functions reinterpret a node pointer as a leaf exactly where its tag was tested LEAF; SIB-1 (ADVISORY only, evidence notes, never the verdict) the db and olc_db iterators make the same algorithmic decisions once lock events are projected away.',
     'decides': 'address independence of comparisons; sibling-step consistency; per-node ordered enumeration; bound handling of the scan drivers; seek fall-off; db/olc agreement',
     'does_not_decide': 'completeness of seek\'s case analysis for every tree shape and bound as a theorem; delivered key lists as values',
 }
@@ -210,7 +210,7 @@ PROPERTIES['C03'] = {
                    'per-return summaries through the dispatcher/shim forwarders, effect summaries for protected-field writes) over every OLC function that owns or receives read sections or write guards, both key kinds: '
                    'LOCK-1 no node pointer read under a read section is dereferenced, and no non-restart result returned, before that section is re-validated; '
                    'LOCK-2 every store to a protected field (direct or through callees, index-sensitive for children) happens under an active write guard on the written node, or the node is fresh / obsoleted by this operation; '
-                   'LOCK-3 guards are taken root-to-leaf and nothing waits while a guard is held; LOCK-5 nodes are obsoleted before they are retired; LOCK-9 lock coupling: the section on a child is opened while the section it was reached under is still open; ROLE helper call sites pass matching section/node pairs; LOCK-11 on the failing side of every lock-step test (must_restart / check / try_read_unlock) only the restart result is returned, never a definitive answer. Verdicts are scoped to the callee closure of olc_db get / insert / remove (the iterator is C09). The property also rests on the lock itself and on the sequential algorithm as instantiated for olc_db, so the lock-word premises LW-1..5 (C07) and the OLC-side findings of the sequential rules NOEFF-1, KEYEQ-1, FIND-1, ORD-1, SLOT-1, PAIR-1, COPY-1, DESC-1, PFX-1/2 (C01) are reported here too. '
+                   'LOCK-3 guards are taken root-to-leaf and nothing waits while a guard is held; LOCK-5 nodes are obsoleted before they are retired; LOCK-9 lock coupling: the section on a child is opened while the section it was reached under is still open; ROLE helper call sites pass matching section/node pairs; LOCK-11 on the failing side of every lock-step test (must_restart / check / try_read_unlock) only the restart result is returned, never a definitive answer. Verdicts are scoped to the callee closure of olc_db get / insert / remove (the iterator is C09). The property also rests on the lock itself and on the sequential algorithm as instantiated for olc_db, so the lock-word premises LW-1..5 (C07) and the OLC-side findings of the sequential rules NOEFF-1, KEYEQ-1, FIND-1, ORD-1, SLOT-1, PAIR-1, COPY-1, DESC-1, PFX-1/2, TYPE-1 (C01) are reported here too. '
                    'Each rule is a necessary condition of linearizability: its breach yields a concrete torn read / lost update under some schedule.',
     'decides': 'OLC protocol conformance (LOCK-1,2,3,5,9,11, ROLE) on every CFG path of every instantiation of the point operations and their helpers',
     'does_not_decide': 'linearizability of histories as such; value-level correctness of the tree algorithms',
@@ -220,11 +220,11 @@ PROPERTIES['C04'] = {
     'configs': two,
     'rules': [olc('LOCK-1'), olc('LOCK-5'), R(olcrules.lock6), R(olcrules.lock6b),
               R(qsbr.q_free_paths), R(qsbr.q_rotation), R(qsbr.q_barriers), R(lambda cfg: qsbr.q_orphans(cfg, parts=('7', '9'))), R(qsbr.q_tagging), R(qsbr.q_last_out), R(qsbr.q_register_epoch),
-              R(lambda cfg: qsbr.q_rotation(cfg, parts=('3',))), R(qsbr.q_cas), R(lambda cfg: qsbr.q_orphans(cfg, parts=('8',))), R(qsbr.q_tail_link), R(ptr.ptr3), R(point.lock11)],
+              R(lambda cfg: qsbr.q_rotation(cfg, parts=('3',))), R(qsbr.q_cas), R(lambda cfg: qsbr.q_orphans(cfg, parts=('8',))), R(qsbr.q_tail_link), R(qsbr.q_sink), R(ptr.ptr3), R(point.lock11)],
     'technique': 'static analysis: relational typestate dataflow (validate-before-dereference, obsolete-before-retire), who-may-construct rule for immediate-deleter owners; the QSBR who-may-free / ordering / control-dependence rules of C05',
     'explanation': 'Structural safety conditions of "no use of reclaimed memory": LOCK-1 (no pointer obtained from a node is followed before the read section on that node is re-validated, so a stale pointer to a retired node is never dereferenced) '
                    'and LOCK-5 (every node an OLC operation hands to reclamation was unlocked-and-obsoleted by it first, so readers still holding a section on it restart; checked at restart returns too - a node retired and then abandoned by a restart is still linked), on every path of every OLC function, both key kinds; '
-                   'LOCK-6 (in the OLC instantiation an existing node is never wrapped in an owner with the immediate deleter outside the single-threaded teardown: ever-reachable nodes are freed only through QSBR); LOCK-6b (the reclaiming deleters hand exactly the node they were given, with its size, to on_next_epoch_deallocate and free nothing themselves). The second half of the property - what was retired is not freed before every reader that might hold it has quiesced - rests on the QSBR safety generators, which are therefore checked here too: Q-1,2,3,4,5,7,9,10,11,12,14 (see C05); and the last clause - every unlinked node is freed exactly once - on the linearity rules of C06 (Q-3, Q-6, Q-8, Q-13). PTR-3 the span handed out by get() reproduces the data / size of the value view; LOCK-11 no definitive result after a failed lock step.',
+                   'LOCK-6 (in the OLC instantiation an existing node is never wrapped in an owner with the immediate deleter outside the single-threaded teardown: ever-reachable nodes are freed only through QSBR); LOCK-6b (the reclaiming deleters hand exactly the node they were given, with its size, to on_next_epoch_deallocate and free nothing themselves). The second half of the property - what was retired is not freed before every reader that might hold it has quiesced - rests on the QSBR safety generators, which are therefore checked here too: Q-1,2,3,4,5,7,9,10,11,12,14 (see C05); and the last clause - every unlinked node is freed exactly once - on the linearity rules of C06 (Q-3, Q-6, Q-8, Q-13, Q-15/16). PTR-3 the span handed out by get() reproduces the data / size of the value view; LOCK-11 no definitive result after a failed lock step.',
     'decides': 'validate-before-dereference; obsolete-before-retire; deferred free only; the local generators of the two-epoch delay of QSBR',
     'does_not_decide': 'the global epoch invariant of QSBR under all interleavings (as C05); eventual reclamation as liveness',
 }
@@ -237,7 +237,7 @@ PROPERTIES['C09'] = {
     'technique': 'static analysis: relational typestate dataflow over the OLC iterator functions (section validation, stack-entry/version pairing, lock coupling), must-pass-through rules for the re-seek path and the fall-off branch of seek',
     'explanation': 'Structural conditions of concurrent-scan correctness on the OLC iterator functions: LOCK-1 (snapshots validated before use / before a non-restart return), LOCK-7b (no validation on an ended, empty or moved-from section), '
                    'LOCK-8 (every stack entry is pushed with the version of the read section opened on the node it describes, so a later rehydrate/check validates the right lock word), LOCK-9 (hand-over-hand: the child section is opened before the parent section is given up), ROLE (the traversals receive the section their node argument was read under), ITER-1 (the sibling computed is the sibling visited, also on the re-seek path), '
-                   'RESEEK-1 (when a step finds its stack invalidated it re-seeks to the key it stood on, captured before anything is unwound, in the direction of the step, and steps past it exactly when the re-seek found that key again), ITER-3 (when seek falls off an inner node the first stack operation is the sibling step on the parent entry, never a pop), ITER-4 / ITER-5 (direction table and net stack effect of the OLC iterator functions), LOCK-11 (a failed lock step or a failed push leads to the restart result only). Verdicts are scoped to the callee closure of the olc_db iterator and scan functions (the sequential iterator is C02); the lock-word premises LW-1..5 and the OLC-side findings of CMP-2/3, ENUM-1, ITER-2, DESC-1 (seek) are reported here too.',
+                   'RESEEK-1 (when a step finds its stack invalidated it re-seeks to the key it stood on, captured before anything is unwound, in the direction of the step, and steps past it exactly when the re-seek found that key again), ITER-3 (when seek falls off an inner node the first stack operation is the sibling step on the parent entry, never a pop), ITER-4 / ITER-5 (direction table and net stack effect of the OLC iterator functions), LOCK-11 (a failed lock step or a failed push leads to the restart result only). Verdicts are scoped to the callee closure of the olc_db iterator and scan functions (the sequential iterator is C02); the lock-word premises LW-1..5 and the OLC-side findings of CMP-2/3, ENUM-1, ITER-2, DESC-1 (seek), VIS-1, TYPE-1 are reported here too.',
     'decides': 'snapshot validation, stack-entry/version pairing and sibling-step consistency in try_first/last/next/prior/seek and the traversals',
     'does_not_decide': 'ordering / completeness of delivered keys under interleavings',
 }
@@ -332,12 +332,12 @@ PROPERTIES['C05'] = {
 PROPERTIES['C06'] = {
     'level': 'other',
     'configs': stats_axis,
-    'rules': [R(lambda cfg: qsbr.q_rotation(cfg, parts=('3',))), R(qsbr.q_cas), R(lambda cfg: qsbr.q_orphans(cfg, parts=('7', '8'))), R(qsbr.q_tail_link), R(qsbr.q_register_epoch), R(qsbr.q_tagging)],
+    'rules': [R(lambda cfg: qsbr.q_rotation(cfg, parts=('3',))), R(qsbr.q_cas), R(lambda cfg: qsbr.q_orphans(cfg, parts=('7', '8'))), R(qsbr.q_tail_link), R(qsbr.q_register_epoch), R(qsbr.q_tagging), R(qsbr.q_sink)],
     'technique': 'static analysis: linearity (exactly-one-sink) dataflow on request containers, CAS-loop shape rule (published value recomputed from the expected value on every retry), type-level non-copyability check',
     'explanation': 'Exactly-once as linearity of the request containers: Q-3 no request list is overwritten while it may hold requests, the new requests are consumed into the current list; '
                    'Q-6 every CAS on the packed state word publishes helper(expected) recomputed after each failed attempt (no lost thread-count update), register increments and unregister decrements the count, paused follows (un)registration, '
                    'a push onto an orphan list links the node to the very head the CAS expects on every retry; Q-7 every orphan list taken by the epoch changer reaches exactly one sink (freed / published / appended on CAS failure), '
-                   'add_to_orphan_list returns only on empty input or CAS success, every exit of unregister_thread passes through orphan_pending_requests, which hands each private list to its own orphan list once; Q-8 requests are not copyable, deferred_requests neither copyable nor movable; Q-11 a new request joins the current-interval list only under last_seen_epoch == fresh epoch and is handed to advance_last_seen_epoch (which drops its argument when the epoch was already seen) only under last_seen_epoch != fresh epoch - the same field the callee tests; Q-13 a store into the next link of an orphan-list node links a private node being pushed or the tail (entered from a test that found the link null) - never a node that may have successors; Q-14 a registering thread that could only bump the thread count returns the NEW epoch (guarded by a test that a freshly read epoch differs), so the per-epoch thread bookkeeping never underflows.',
+                   'add_to_orphan_list returns only on empty input or CAS success, every exit of unregister_thread passes through orphan_pending_requests, which hands each private list to its own orphan list once; Q-8 requests are not copyable, deferred_requests neither copyable nor movable; Q-11 a new request joins the current-interval list only under last_seen_epoch == fresh epoch and is handed to advance_last_seen_epoch (which drops its argument when the epoch was already seen) only under last_seen_epoch != fresh epoch - the same field the callee tests; Q-13 a store into the next link of an orphan-list node links a private node being pushed or the tail (entered from a test that found the link null) - never a node that may have successors; Q-14 a registering thread that could only bump the thread count returns the NEW epoch (guarded by a test that a freshly read epoch differs), so the per-epoch thread bookkeeping never underflows; Q-15 the end of the pipeline really frees: qsbr::deallocate calls free_aligned on its pointer argument and deallocation_request::deallocate hands its own pointer to qsbr::deallocate, on every path; Q-16 qsbr_resume assigns every per-thread bookkeeping field the constructor initialises, with the same value (last seen epochs from register_thread(), quiescent-state counter 0) - a resumed thread with a stale counter never leaves the previous epoch, the epoch stalls and nothing is freed any more.',
     'decides': 'no request lost or duplicated on any path of rotation, orphaning and orphan hand-over; thread-count bookkeeping',
     'does_not_decide': 'the bound "freed no later than the third quiescent round" and getter equalities at quiescent points (schedule-dependent)',
 }
